@@ -172,14 +172,19 @@ def judge_star(sc, counts, n):
 
 def main(eng):
     tier = eng.tier
+    budget = eng.budget_s or RUNS["thorough_s"]
     if tier == "thorough":
-        eng.search_for(eng.budget_s or RUNS["thorough_s"], 32000)
+        eng.search_for(0.6 * budget, 32000)
     else:
         eng.search(RUNS["quick"])
     n = STAR_RUNS[tier]
     tests = []
-    for tag, sc in star_scenarios(eng.seed, tier):
-        counts = eng.distribution(sc, n, tag)
+    ss = star_scenarios(eng.seed, tier)
+    for tag, sc in ss:
+        if tier == "thorough":
+            counts, n = eng.distribution_timed(sc, tag, 0.4 * budget / len(ss), 50000, 50000, 4000000)
+        else:
+            counts = eng.distribution(sc, n, tag)
         viol = judge_star(sc, counts, n)
         tests.append({"scenario_tag": tag, "scenario": sc, "runs": n,
                       "observed": {str(k): v / n for k, v in sorted(counts.items(), key=lambda kv: str(kv[0]))}})
